@@ -1369,8 +1369,50 @@ pub fn fam_permuted(r: &mut Rng) -> Vec<Prog> {
     }]
 }
 
+/// Closures that use an outer variable BOTH whole and through a field path (`p` next to `p.x`),
+/// also inside a nested closure or a branch: the capture list of the function value must hold one
+/// slot per captured thing the body loads (seeded change C07-4: a path skipped when pushed but
+/// still counted makes `Function(i)` pop one value too many → StackUnderflow in an accepted program).
+pub fn fam_capture(r: &mut Rng) -> Vec<Prog> {
+    let mut g = G::new(r);
+    let k = g.r.below(9);
+    let j = g.r.below(9);
+    let outer = match g.r.below(3) {
+        0 => format!("p = P[x: {k}, y: 0x0{j}]"),
+        1 => format!("p = [x: {k}, y: [z: {j}]]"),
+        _ => format!("p = P[x: {k}, y: Q[x: {j}]]"),
+    };
+    let nested_int = outer.contains("z:") || outer.contains("Q[");
+    let inner_path = if outer.contains("z:") { "p.y.z" } else { "p.y.x" };
+    let body = match g.r.below(7) {
+        0 => "[~, p.x] __integer_add__ =s => [s, p]".to_string(),
+        1 => "[p, [~, p.x] __integer_add__]".to_string(),
+        2 => "[p.x, p, p.x]".to_string(),
+        3 => "| =0 => [p.x, p] | [p, [$, p.x] __integer_multiply__]".to_string(),
+        4 => "g = #'int { [~, p.x] __integer_add__ =s => [s, p] }, $ g".to_string(),
+        5 if nested_int => format!("[[~, {inner_path}] __integer_add__, p.y, p]"),
+        _ => "q = p, [[~, p.x] __integer_add__, q.x, p.x]".to_string(),
+    };
+    g.feats.insert("capture:whole-and-path".into());
+    if body.contains("g = #") {
+        g.feats.insert("capture:nested-closure".into());
+    }
+    let f = t(&format!("#'int {{ {body} }}"));
+    vec![Prog {
+        family: "capture",
+        features: g.feats.clone(),
+        aliases: vec![],
+        guards: vec![],
+        defs: vec![("p".into(), t(outer.split_once(" = ").map(|x| x.1).unwrap_or("P[x: 1, y: 0x01]"))), ("f".into(), f)],
+        main: t("{ARG} f"),
+        args: (0..2).map(|i| Arg { src: i.to_string(), aligned_src: None, note: String::new() }).collect(),
+        generic_fn: None,
+        declared_ret: None,
+    }]
+}
+
 pub fn generate(r: &mut Rng) -> Vec<Prog> {
-    match r.below(46) {
+    match r.below(48) {
         0..=7 => fam_dispatch(r),
         8..=11 => fam_variable(r),
         12..=15 => fam_generic(r),
@@ -1383,6 +1425,7 @@ pub fn generate(r: &mut Rng) -> Vec<Prog> {
         30..=33 => fam_carveout(r),
         34..=37 => fam_process(r),
         38..=41 => fam_sequence(r),
-        _ => fam_permuted(r),
+        42..=45 => fam_permuted(r),
+        _ => fam_capture(r),
     }
 }
